@@ -132,7 +132,7 @@ BASES = {
 }
 
 
-LOW, HIGH, IDLE = 400, 3000, 900       # idle_client_in_transaction_timeout values (ms) and the silence used against them
+LOW, HIGH, IDLE = 500, 3000, 1100       # idle_client_in_transaction_timeout values (ms) and the silence used against them
 BASES["T"] = dict(copy.deepcopy(BASES["A"]), general={"idle_client_in_transaction_timeout": HIGH})
 BASES["S"] = dict(copy.deepcopy(BASES["A"]), general={"idle_client_in_transaction_timeout": LOW})
 
@@ -235,6 +235,17 @@ def valid_kinds():
     K.append(("pa-user-u-removed/paused", "B", mut("B", deluser_u), 0, {"pause": [("pa", "u")]}))
     K.append(("pa-changed+pb-removed+pc-added/paused", "A", mut("A", combo), 0, {"pause": [("pb", "u")]}))
     K.append(("pa-removed-B/both-users-paused", "B", mut("B", delpa), 0, {"pause": [("pa", "u"), ("pa", "v")]}))
+    # a transaction HELD by PAUSE across the reload: PAUSE pa,u; A's first statement is held; reload; RESUME; the transaction
+    # must start on what the new file says (servers, mode, idle timeout) / be refused if the pool or user is gone
+    H = {"hold": ("pa", "u")}
+    K.append(("pa-server-replaced/held", "A", mut("A", servers), 0, H))
+    K.append(("pa-pb-servers-swapped/held", "A", mut("A", swap), 0, H))
+    K.append(("pa-pool_mode-session/held", "A", mut("A", mode), 0, H))
+    K.append(("unchanged-identical/held", "A", mut("A", ident), 0, H))
+    K.append(("general-only-ban_time/held", "A", mut("A", ident, ban_time=61), 0, H))
+    K.append(("pa-removed/held", "A", mut("A", delpa), 0, H))
+    K.append(("pa-user-u-removed/held", "B", mut("B", deluser_u), 0, H))
+    K.append(("idle-lowered+pa-server-replaced/held", "T", mut("A", servers, idle_client_in_transaction_timeout=LOW), 0, dict(H, idle=IDLE, idle_after_wake=True)))
     return K
 
 
@@ -426,6 +437,7 @@ class Script:
         self.never = set()     # clients whose (pool, user) did not exist when they connected
         self.tmo = {}          # client -> idle-in-transaction timeout its current transaction started with (by file)
         self.straddle_timeout = False
+        self.hold_removed = False
         self.keeps = set()     # clients that checked out a server of a session-mode pool: they keep it until they leave
 
     def mark(self, extra_ms=0):
@@ -490,6 +502,29 @@ class Script:
         self.steps += q("admq", "%s %s,%s" % (verb, db, usr), "op%d:admin" % k)
         self.ops.append((verb.lower(), db, usr))
         self.mark()
+
+    def hold_begin(self, c):
+        """the first statement of a new transaction while the client's pool is paused: no reply may come"""
+        k = len(self.ops)
+        self.steps.append({"op": "send", "c": c, "msgs": [{"t": "Q", "sql": "BEGIN"}]})
+        self.steps.append({"op": "recv", "c": c, "until": "Z", "timeout_ms": 150, "label": "op%d:begin" % k})
+        self.ops.append(("begin", c))
+        self.mark()
+
+    def wake(self, c):
+        """after RESUME (or after the reload that removed the pool): the held BEGIN is answered now; returns whether, by the
+        files alone, the (pool, user) still exists"""
+        k = len(self.ops)
+        alive = self.clients[c] in keys_of(self.inforce)
+        self.steps.append({"op": "recv", "c": c, "until": "Z", "timeout_ms": 2000, "label": "op%d:wake" % k})
+        if alive:
+            self.steps += q(c, self.sql(c), "op%d:first" % k)
+        self.ops.append(("wake", c))
+        self.tmo[c] = idle_of(self.inforce)
+        self.mark()
+        if alive and self.session_mode(c):
+            self.keeps.add(c)
+        return alive
 
     def inside(self, c):
         """a statement in the middle of the open transaction (no model op)"""
@@ -559,6 +594,10 @@ def build_script(case):
     for c, db, usr, pw in cl:
         s.connect(c, db, usr, pw)
     t = case["timing"]
+    hold = case["extra"].get("hold")
+    if hold and t == "inside":
+        t = "between"
+    s.timing = t
     if t == "between":
         for c, _, _, _ in cl:
             s.txn(c)
@@ -568,11 +607,29 @@ def build_script(case):
         s.begin("A")
     for db, usr in case["extra"].get("pause", []):
         s.pause(db, usr)
+    if hold:
+        s.pause(*hold)
+        s.hold_begin("A")
     s.reload(0)
     idle = case["extra"].get("idle")
+    if hold:
+        s.pause(hold[0], hold[1], "RESUME")
+        s.hold_removed = hold not in keys_of(s.inforce)
+        if s.wake("A"):
+            if case["extra"].get("idle_after_wake") and s.idle("A", idle):
+                pass                         # the held transaction started under the NEW, lower timeout: over
+            else:
+                s.end("A")
     if t == "inside":
-        if idle and s.idle("A", idle):
-            s.straddle_timeout = True        # it started under the OLD, lower timeout: over, by the old rules
+        if idle:
+            # one more statement after the reload (the wait that was in progress during the reload ends here), THEN the silence,
+            # then another statement and COMMIT: every wait of the transaction runs under the timeout it started with
+            s.inside("A")
+            if s.idle("A", idle):
+                s.straddle_timeout = True    # it started under the OLD, lower timeout: over, by the old rules
+            else:
+                s.inside("A")
+                s.end("A")
         else:
             s.inside("A")
             s.end("A")
@@ -668,7 +725,7 @@ def coq_ops(case, script):
             if o[0] == "idle":
                 out.append("OIdle %d %d" % (c, o[2]))
                 continue
-            out.append("%s %d" % ({"begin": "OBegin", "end": "OEnd", "disconnect": "ODisconnect"}[o[0]], c))
+            out.append("%s %d" % ({"begin": "OBegin", "end": "OEnd", "disconnect": "ODisconnect", "wake": "OWake"}[o[0]], c))
     return "trace2 idh empty_world [%s]" % "; ".join(out), ids, cid
 
 
@@ -754,8 +811,8 @@ def read_impl(case, script, res):
                 dead_clients.add(o[1])
                 msg = [f.get("fields", {}).get("M") for f in e["frames"] if f.get("t") == "E"]
                 ob["obs"] = ("connect", "refused", msg)
-        elif o[0] == "begin":
-            b, f = recvs.get("op%d:begin" % k), recvs.get("op%d:first" % k)
+        elif o[0] in ("begin", "wake"):
+            b, f = recvs.get("op%d:%s" % (k, o[0])), recvs.get("op%d:first" % k)
             bf = b["frames"] if b else []
             ff = f["frames"] if f else []
             if o[1] in dead_clients:
@@ -763,6 +820,8 @@ def read_impl(case, script, res):
             elif nopool(bf):
                 dead_clients.add(o[1])
                 ob["obs"] = ("begin", "nopool")
+            elif not bf and b and b.get("outcome") == "timeout":
+                ob["obs"] = ("begin", "held")        # no reply: the client is parked (PAUSE)
             elif not bf:
                 ob["obs"] = ("begin", "gone", b["outcome"] if b else None)
             else:
@@ -771,7 +830,9 @@ def read_impl(case, script, res):
                 errs = [x.get("fields", {}).get("M") for x in bf + ff if x.get("t") == "E"]
                 if len(rows) == 1 and st == ["T", "T"] and not errs:
                     key = (rows[0][0], int(rows[0][1]))
-                    ob["obs"] = ("begin", "ok", sid.get(key), opened_at.get(key, -1) > prev_seq, key, rows[0][2])
+                    # a held transaction goes on as soon as RESUME is executed, i.e. in the window of the op before this one
+                    since = out[k - 2]["seq"] if (o[0] == "wake" and k >= 2) else prev_seq
+                    ob["obs"] = ("begin", "ok", sid.get(key), opened_at.get(key, -1) > since, key, rows[0][2])
                 else:
                     ob["obs"] = ("begin", "odd", rows, st, errs)
         elif o[0] == "end":
@@ -871,15 +932,20 @@ def compare(case, script, model, impl, warm):
             exp = {1: "ok", 2: "nopool", 6: "nop"}.get(kind)
             if io[1] != exp:
                 return "%s: connect %s, model %s" % (what, io, exp)
-        elif o[0] == "begin":
-            if kind == 2:
+        elif o[0] in ("begin", "wake"):
+            if kind == 6 and o[0] == "wake" and io[1] == "nopool":
+                pass      # told "No pool configured" at the reload that removed the pool (the model delivers it at this step: kind 2)
+            elif kind == 2:
                 if io[1] != "nopool":
                     return "%s: model says 'No pool configured', implementation %s" % (what, io)
             elif kind == 6:
                 if io[1] != "gone":
                     return "%s: model says the client is gone, implementation %s" % (what, io)
             elif kind == 9:
-                return "%s: model says the client is blocked by PAUSE (the scripts never do that), implementation %s" % (what, io)
+                if io[1] != "held":
+                    return "%s: model says the first statement is held by PAUSE, implementation %s" % (what, io)
+            elif io[1] == "held":
+                return "%s: the first statement got no reply (held), model %s" % (what, (kind, a, b, c))
             elif kind == 3:
                 if io[1] != "ok":
                     return "%s: model says the transaction starts on server %d, implementation %s" % (what, b, io)
@@ -901,6 +967,10 @@ def compare(case, script, model, impl, warm):
             return "%s: paused pools %s, model %s" % (what, ip_, m["paused"])
         if o[0] == "reload" and i["state"]["config"].get("idle_client_in_transaction_timeout") != m["cidle"]:
             return "%s: CONFIG idle_client_in_transaction_timeout %s, model %s" % (what, i["state"]["config"].get("idle_client_in_transaction_timeout"), m["cidle"])
+        parked = case["extra"].get("hold") and ("begin", "A") in script.ops[:k + 1] and ("wake", "A") not in script.ops[:k + 1] \
+            and ("pause", "pa", "u") in script.ops[:k + 1]
+        if parked and (o[0] == "resume" or (script.hold_removed and any(x[0] == "reload" for x in script.ops[:k + 1]))):
+            continue      # RESUME (or the reload that removes the pool) wakes the waiter at once; in the model its going on is its own next step
         if not warm:
             mo = sorted(s[0] for s in m["servers"])
             if mo != i["open"]:
@@ -1029,7 +1099,7 @@ def monitors(case, script, res, impl):
             f = case["files"][o[1]]
             if f["kind"] == "valid" and not f.get("dead") and i["obs"][1] not in (0, "err", 3):
                 inforce = f["sem"]
-        elif o[0] == "begin" and i["obs"][1] == "ok":
+        elif o[0] in ("begin", "wake") and i["obs"][1] == "ok":
             tmo_at[o[1]] = idle_of(inforce)
         elif o[0] == "idle" and o[1] in tmo_at and i["obs"][1] in ("quiet", "timeout", "odd"):
             t = tmo_at[o[1]]
@@ -1046,9 +1116,12 @@ def monitors(case, script, res, impl):
                 inforce = f["sem"]
         elif o[0] == "connect" and i["obs"][1] == "ok" and (o[2], o[3]) not in keys_of(inforce):
             V.append(("S5", "%s: client %s was admitted as %s@%s although the file in force has no such pool/user" % (case["name"], o[1], o[3], o[2])))
-        elif o[0] == "begin" and i["obs"][1] == "ok" and script.clients[o[1]] not in keys_of(inforce):
+        elif o[0] == "wake" and i["obs"][1] == "ok" and script.clients[o[1]] in keys_of(inforce) and i["obs"][4][0] not in backends_of(inforce, script.clients[o[1]][0]):
+            V.append(("S3", "%s: the transaction of client %s that PAUSE held across the reload was answered by %s; the file in force names %s for its pool"
+                            % (case["name"], o[1], i["obs"][4][0], backends_of(inforce, script.clients[o[1]][0]))))
+        elif o[0] in ("begin", "wake") and i["obs"][1] == "ok" and script.clients[o[1]] not in keys_of(inforce):
             V.append(("S5", "%s: a transaction of client %s (%s) was served although the file in force has no such pool/user" % (case["name"], o[1], script.clients[o[1]])))
-    if case["timing"] == "inside" and not script.straddle_timeout:
+    if script.timing == "inside" and not script.straddle_timeout:
         kb = next(k for k, o in enumerate(script.ops) if o == ("begin", "A"))
         ke = next(k for k, o in enumerate(script.ops) if o == ("end", "A"))
         b, e_ = impl[kb]["obs"], impl[ke]["obs"]
@@ -1061,8 +1134,8 @@ def monitors(case, script, res, impl):
                 V.append(("S4", "%s: COMMIT of the transaction that straddles the reload: %s" % (case["name"], e_)))
             seq_sql = [((m.get("detail") or {}).get("sql") or "", (m.get("state") or {}).get("txn")) for m in msgs if (m["who"], m["conn"]) == b[4] and m.get("tag") == "Q" and m["seq"] > impl[kb]["prev"] and m["seq"] < impl[ke]["seq"]]
             shape = [("B" if t.upper() == "BEGIN" else "C" if t.upper() == "COMMIT" else "S" if "'A_" in t else "?") for t, _ in seq_sql]
-            if shape != ["B", "S", "S", "C"] or [x for _, x in seq_sql] != ["I", "T", "T", "T"]:
-                V.append(("S4", "%s: the straddling transaction did not run BEGIN, 2 statements, COMMIT on its one server connection %s with the transaction open throughout: %s" % (case["name"], b[4], seq_sql)))
+            if shape[:1] != ["B"] or shape[-1:] != ["C"] or len(shape) < 4 or set(shape[1:-1]) != {"S"} or [x for _, x in seq_sql] != ["I"] + ["T"] * (len(shape) - 1):
+                V.append(("S4", "%s: the straddling transaction did not run BEGIN, its statements, COMMIT on its one server connection %s with the transaction open throughout: %s" % (case["name"], b[4], seq_sql)))
     # S5: a client whose (pool, user) is not in the accepted file gets the error, and nothing of it reaches a backend
     for k, (o, i) in enumerate(zip(script.ops, impl)):
         if o[0] == "begin" and i["obs"][1] == "nopool":
